@@ -3206,10 +3206,13 @@ set_directory_record_rr(unsigned char *bp, int dr_len,
 				if (bp != NULL) {
 					/*
 					 * Mark flg as CONTINUE component
-					 * (none has been started when the
-					 * record is cut at a '/').
+					 * when the record is cut inside a
+					 * component; one that is complete
+					 * (the cut is at a '/') is followed
+					 * by a separator as usual.
 					 */
-					if (cf != NULL)
+					if (cf != NULL && cl != NULL &&
+					    sl[0] != '/')
 						*cf |= 0x01;
 					/*
 					 *               len  ver  flg
